@@ -286,6 +286,8 @@ def mxQuery (m : MXS.Mat Int) : List String → Option String
   | ["iter"] => some ("ok " ++ " ".intercalate ((MXS.indexedIter m).map (fun ((i, j), v) => s!"{i},{j}={v}")))
   | ["tomap"] => some ("ok " ++ " ".intercalate (sortStr ((MXS.toMap (0 : Int) m).map
       (fun ((a, b), r) => s!"{hexEnc a},{hexEnc b}={encMRes toString r}"))))
+  | ["tomapd"] => some ("ok " ++ " ".intercalate ((sortStr ((MXS.toMap (0 : Int) m).map
+      (fun ((a, b), r) => s!"{hexEnc a},{hexEnc b}={encMRes toString r}"))).eraseDups))
   | ["idx", i, j] => do let i ← i.toNat?; let j ← j.toNat?; pure s!"ok {MX.cell i j}"
   | ["inv", k] => do let k ← k.toNat?; let p := MXS.invIdx k; pure s!"ok {p.1} {p.2}"
   | ["dump"] => some ("ok " ++ ",".intercalate (m.taxa.map hexEnc) ++ " | " ++ " ".intercalate (m.v.toList.map toString))
